@@ -23,6 +23,16 @@ C01.skip  ParsedName::skip accepts uncompressed names of exactly the lengths
           record is skipped or parsed).
 C01.window the type-bitmap validator accepts exactly the windows the unchecked
           iterator can walk (1..=32 bitmap octets, window inside the data).
+C01.rematch an `unreachable!()` in the arm of a second `match` on a value that
+          an earlier `match` has already classified is really unreachable:
+          with the value sets of the earlier arms carried along the paths, no
+          path reaches it (wire-derived selector: IPSECKEY gateway type).
+C01.lossy a loop that prints octets as lossy UTF-8 advances by the error
+          length only when there is one (`Utf8Error::error_len()` is `None`
+          for a sequence cut short by the end of the data: the loop must end).
+C01.clone a hand-written `Clone` of an iterator over a message copies every
+          field from `self` (a literal in its place changes what the clone
+          yields).
 C01.panic no explicit panic macro whose controlling value is wire-derived in
           functions reachable from the read-side entry points; typed unwraps
           of parse results are dominated by a discharging fact or audited.
@@ -68,6 +78,9 @@ def run(ctx):
     rule_ts(ctx, F)
     rule_ovf(ctx, F)
     rule_panic(ctx, F)
+    rule_rematch(ctx, F)
+    rule_lossy(ctx, F)
+    rule_clone(ctx, F)
     rule_window(ctx, F)
     rule_txt(ctx, F)
     rule_arr(ctx, F)
@@ -968,3 +981,212 @@ def rule_skip(ctx, F):
            "ParsedName::skip accepts uncompressed names of up to %s octets but ParsedName::parse up to %s: a record "
            "that parses is rejected (or vice versa) when the section is skipped over, so two traversals of one "
            "message disagree" % (smax, pmax))
+
+
+# ---------------------------------------------------------------------------
+# unreachable!() behind a second match on the same value
+# ---------------------------------------------------------------------------
+
+def rule_rematch(ctx, F):
+    from rulelib import flow_states
+    R = "C01.rematch"
+    ctx.floor(R, 1)
+    n = 0
+    for p, b in sorted(F.bodies.items()):
+        if p.startswith(("new::", "<new::")) or "::test" in p or not re.match(r"^<?(rdata|base)::", p):
+            continue
+        sites = [bi for bi in b.reachable_blocks()
+                 if b.blocks[bi]["t"]["k"] == "call" and re.search(r"core::panicking::", b.blocks[bi]["t"]["fn"] or "")
+                 and "unreachable" in (b.blocks[bi]["t"].get("x") or [])]
+        if not sites:
+            continue
+        # only functions that switch twice on one integer value
+        bf = BranchFacts(b, F)
+        keys = {}
+        for sw in b.reachable_blocks():
+            if b.blocks[sw]["t"]["k"] != "switch":
+                continue
+            for lab, fv in bf.edge_facts(sw).items():
+                tm, v = fv
+                if isinstance(v, tuple) and v[0] in ("eq", "ne"):
+                    keys.setdefault(str(canon_nobb(deep_strip(tm))), set()).add(sw)
+        twice = {k for k, s in keys.items() if len(s) >= 2}
+        if not twice:
+            continue
+
+        def on_call(bb, term, st):
+            return st
+
+        def on_edge(bb, lab, fact, st):
+            if st == "DEAD" or fact is None:
+                return st
+            tm, v = fact
+            if not (isinstance(v, tuple) and v[0] in ("eq", "ne")):
+                return st
+            k = str(canon_nobb(deep_strip(tm)))
+            if k not in twice:
+                return st
+            cur = dict(st)
+            c = cur.get(k)
+            if v[0] == "eq":
+                if c is not None and ((c[0] == "eq" and c[1] != v[1]) or (c[0] == "ne" and v[1] in c[1])):
+                    return "DEAD"
+                cur[k] = ("eq", v[1])
+            else:
+                vals = frozenset(v[1]) if isinstance(v[1], (tuple, list, set, frozenset)) else frozenset([v[1]])
+                if c is not None and c[0] == "eq":
+                    if c[1] in vals:
+                        return "DEAD"
+                else:
+                    cur[k] = ("ne", (c[1] if c else frozenset()) | vals)
+            return tuple(sorted(cur.items()))
+
+        def on_block(bb, st):
+            """remember which variant a local Option/Result was last given as a whole"""
+            if st == "DEAD":
+                return st
+            cur = dict(st)
+            ch = False
+            for s in b.blocks[bb]["s"]:
+                if s[0] != "=" or len(s[1]) != 1:
+                    continue
+                k = "var:%d" % s[1][0]
+                rv = s[2]
+                if rv[0] == "agg" and rv[1][0] == "adt" and rv[1][1] in ("core::option::Option", "core::result::Result"):
+                    cur[k] = ("eq", rv[1][2]); ch = True
+                elif rv[0] == "use" and rv[1][0] in ("c", "m") and len(rv[1][1]) == 1 and ("var:%d" % rv[1][1][0]) in cur:
+                    cur[k] = cur["var:%d" % rv[1][1][0]]; ch = True
+                elif k in cur:
+                    del cur[k]; ch = True
+            return tuple(sorted(cur.items())) if ch else st
+
+        _on_edge0 = on_edge
+
+        def on_edge(bb, lab, fact, st):
+            st = _on_edge0(bb, lab, fact, st)
+            if st == "DEAD" or fact is None:
+                return st
+            tm, v = fact
+            if isinstance(v, tuple) and v[0] == "variant":
+                # switch on the discriminant of a local whose variant this path has fixed
+                for s in b.blocks[bb]["s"]:
+                    if s[0] == "=" and s[2][0] == "discr" and s[2][1] and len(s[2][1]) == 1:
+                        c = dict(st).get("var:%d" % s[2][1][0])
+                        if c is not None and c[1] != v[1]:
+                            return "DEAD"
+            return st
+
+        at = flow_states(b, F, (), on_call, on_edge, on_block=on_block)
+        if at is None:
+            ctx.undecided_item(R, p, "state exploration exceeded its budget")
+            continue
+        for bi in sites:
+            sts = at.get(bi, set())
+            # the site must sit behind one of the repeated selectors
+            ctrl = {str(canon_nobb(deep_strip(tt))) for tt in control_terms(b, bi, F)}
+            if not (ctrl & twice):
+                continue
+            n += 1
+            live = [s for s in sts if s != "DEAD"]
+            ctx.ob(R, b, "unreachable!() behind the second match is not reachable", not live,
+                   "%s: the unreachable!() in the second match on the same value can be reached -- an arm of the first match lets "
+                   "a value through that the second match does not handle: that value, read from the message, panics the parser"
+                   % p.split("::")[-1], b.where(bi))
+    ctx.call_sites += n
+
+
+# ---------------------------------------------------------------------------
+# lossy UTF-8 loops
+# ---------------------------------------------------------------------------
+
+def rule_lossy(ctx, F):
+    R = "C01.lossy"
+    ctx.floor(R, 1)
+    n = 0
+    for p, b in sorted(F.bodies.items()):
+        if "::test" in p or not b.file.startswith("src/"):
+            continue
+        sites = [(bb, tt) for bb, tt in b.calls() if re.search(r"Utf8Error::error_len$", tt["fn"] or "")]
+        if not sites:
+            continue
+        cyc = cyclic_blocks(b)
+        for bb, tt in sites:
+            if bb not in cyc:
+                continue
+            n += 1
+            dest = tt.get("dest")
+            matched = False
+            defaulted = None
+            if dest and len(dest) == 1:
+                d0 = dest[0]
+                for bi in b.reachable_blocks():
+                    for st in b.blocks[bi]["s"]:
+                        if st[0] == "=" and st[2][0] == "discr" and st[2][1] and st[2][1][0] == d0:
+                            matched = True
+                    t2 = b.blocks[bi]["t"]
+                    if t2["k"] == "call" and any(a[0] in ("c", "m") and a[1][0] == d0 for a in t2["args"]) and \
+                            re.search(r"Option::<.*>::(unwrap_or|unwrap_or_default|unwrap_or_else|map_or)$", t2["fn"] or ""):
+                        defaulted = (t2["fn"] or "").split("::")[-1]
+            ok = matched and defaulted is None
+            if ok:
+                # the None edge leaves the loop
+                bf = BranchFacts(b, F)
+                ok = False
+                for sw in b.reachable_blocks():
+                    if b.blocks[sw]["t"]["k"] != "switch":
+                        continue
+                    for lab, (tm, v) in bf.edge_facts(sw).items():
+                        if isinstance(v, tuple) and v == ("variant", "None") and any(s[0] == "call" and (s[1] or "").endswith("Utf8Error::error_len") for s in walk(tm)):
+                            tgt = b.edge_target(sw, lab)
+                            ok = tgt not in cyclic_blocks(b, removed=()) or not (bb in b.reach_from(tgt))
+            ctx.ob(R, b, "the loop ends when the invalid sequence has no length", ok,
+                   "%s advances its lossy-UTF-8 loop by `error_len()%s`: for a sequence cut short by the end of the data "
+                   "error_len() is None, the slice does not shrink and the loop prints U+FFFD for ever"
+                   % (p.split("::")[-1] if "fmt" not in p.split("::")[-1] else re.sub(r" as .*", "", p).lstrip("<").split("::")[-1] + "::fmt",
+                      (".%s(..)" % defaulted) if defaulted else ""), b.where(bb))
+    ctx.call_sites += n
+
+
+# ---------------------------------------------------------------------------
+# hand-written Clone of message iterators
+# ---------------------------------------------------------------------------
+
+def rule_clone(ctx, F):
+    R = "C01.clone"
+    ctx.floor(R, 3)
+    n = 0
+    for p, b in sorted(F.bodies.items()):
+        m = re.match(r"^<(base::(message|question|record|opt|name)[\w:]*)(<.*>)? as core::clone::Clone>::clone$", p)
+        if not m or "::test" in p:
+            continue
+        if any("automatically_derived" in str(x) or x == "derive" for x in (b.r.get("x") or [])):
+            continue
+        for bi in b.reachable_blocks():
+            for st in b.blocks[bi]["s"]:
+                if st[0] == "=" and st[1] == [0] and st[2][0] == "agg" and st[2][1][0] == "adt":
+                    adt = F.adts.get(st[2][1][1])
+                    fields = None
+                    if adt and adt.get("variants"):
+                        fields = adt["variants"][0].get("fields")
+                    for fi, op in enumerate(st[2][2]):
+                        tm = deep_strip(b.term_of_operand(op))
+                        fname = None
+                        if fields and fi < len(fields):
+                            fname = fields[fi]["name"] if isinstance(fields[fi], dict) else fields[fi]
+                        if tm[0] == "k" or (tm[0] == "agg" and not tm[2]):
+                            # a literal: fine only for zero-sized markers
+                            ty = (fields[fi].get("ty") if fields and fi < len(fields) and isinstance(fields[fi], dict) else "") or ""
+                            if "PhantomData" in ty or "PhantomData" in show(tm) or fname == "marker":
+                                continue
+                            n += 1
+                            ctx.ob(R, b, "field %s of the clone comes from self" % (fname or fi), False,
+                                   "%s::clone sets field `%s` to the literal %s instead of copying it: the clone of an iterator "
+                                   "yields different items than the original (a message traversed twice gives two results)"
+                                   % (m.group(1).split("::")[-1], fname or fi, show(tm)), b.where(bi))
+                        else:
+                            n += 1
+                            ctx.ob(R, b, "field %s of the clone comes from self" % (fname or fi),
+                                   any(s == ("arg", 1) for s in walk(tm)),
+                                   "%s::clone builds field `%s` from %s, not from self" % (m.group(1).split("::")[-1], fname or fi, show(tm)[:60]),
+                                   b.where(bi))
+    ctx.call_sites += n
